@@ -152,6 +152,8 @@ pub struct Built {
     pub model_debug: BTreeMap<Option<usize>, String>,
     pub real_debug: BTreeMap<Option<usize>, Result<String, String>>,
     pub diffs: Vec<String>,
+    /// disagreements about `has_system` / `contains` (aspect `query`)
+    pub qdiffs: Vec<String>,
     pub iters: BTreeMap<usize, Arc<AtomicUsize>>,
 }
 
@@ -184,6 +186,7 @@ impl<'d> BuildCtx<'d> {
                 model_debug: BTreeMap::new(),
                 real_debug: BTreeMap::new(),
                 diffs: vec![],
+                qdiffs: vec![],
                 iters: BTreeMap::new(),
             },
         }
@@ -338,10 +341,10 @@ impl<'d> BuildCtx<'d> {
             probes.push("no such system".into());
             probes.push(String::new());
             for n in probes {
-                let real = format!("has={} contains={} n={} empty={}", b.has_system(&n), b.contains(&n), b.num_systems(), b.is_empty());
+                let real = format!("has={} contains={}", b.has_system(&n), b.contains(&n));
                 if let Some(m) = self.ask(&format!("query {}", hex(&n))) {
                     if m != real {
-                        self.out.diffs.push(format!("builder {:?}: queries about {:?}: real `{}` model `{}`", key, n, real, m));
+                        self.out.qdiffs.push(format!("builder {:?}: queries about {:?}: real `{}` model `{}`", key, n, real, m));
                     }
                 }
             }
